@@ -38,6 +38,10 @@ VARIABLES l,      \* next line of the trace
           heap,   \* ledger sub-machine: live blocks [id, inst, bytes]
           objs,   \* lifetime sub-machine: live instrumented objects [blk, off, sz]
           ob,     \* previous observation of every vector (for the stability judgements)
+          dev,    \* this history has used a logged parameter that differs from what the generator assumed (capacity
+                  \* of a copy, capacity / fixed sizes of a cleared moved-from vector): the rest of its plan may no
+                  \* longer fit the observed state - a failing precondition then ends the history silently instead of
+                  \* being reported as a generator defect
           obe,    \* previous observation of every stand-alone element
           ex,     \* per vector: its block was requested for exactly its current capacity (Construct, growing
                   \* Reserve, and what inherits such a block); after an assignment a vector may legitimately keep
@@ -45,7 +49,7 @@ VARIABLES l,      \* next line of the trace
                   \* only judged while ex holds
           skip    \* rest of the current history is not judged (after its first divergence)
 
-tvars == <<vec, el, act, l, heap, objs, ob, obe, ex, skip>>
+tvars == <<vec, el, act, l, heap, objs, ob, obe, ex, dev, skip>>
 
 NoObs == [st |-> "none"]
 MA == LO!MaxAl(P)
@@ -375,8 +379,14 @@ ResetState ==
   /\ ob' = [v \in Vecs |-> NoObs]
   /\ obe' = [x \in Elems |-> NoObs]
   /\ ex' = [v \in Vecs |-> FALSE]
+  /\ dev' = FALSE
 
-Hold == UNCHANGED <<vec, el, heap, objs, ob, obe, ex, skip>>
+Hold == UNCHANGED <<vec, el, heap, objs, ob, obe, ex, dev, skip>>
+
+Deviates(e) ==
+  \/ /\ e.n = "Clear" /\ vec[e.v].st = "moved" /\ (e.par.cap # 0 \/ e.par.fx # NoFixed)
+  \/ /\ e.n \in {"CopyConstruct", "CopyAssign", "MoveAssign"} /\ e.thrown = 0
+     /\ e.par.cap >= 0 /\ e.par.cap # vec[e.a[1]].cap
 
 ExactAfter(e, R) ==
   [v \in Vecs |->
@@ -394,7 +404,8 @@ ExactAfter(e, R) ==
 
 StepOp(e) ==
   IF ~PreOf(S0, e.n, e.v, e.a)
-  THEN Report(e, {"DRIVER_PRECONDITION"}) /\ skip' = TRUE /\ UNCHANGED <<vec, el, heap, objs, ob, obe, ex>>
+  THEN /\ (IF dev THEN TRUE ELSE Report(e, {"DRIVER_PRECONDITION"}))
+       /\ skip' = TRUE /\ UNCHANGED <<vec, el, heap, objs, ob, obe, ex, dev>>
   ELSE
     LET par == [e.par EXCEPT !.thrown = e.thrown]
         R == EffOf(S0, e.n, e.v, e.a, par)
@@ -443,6 +454,7 @@ StepOp(e) ==
        /\ ob' = [v \in Vecs |-> ObsOf(e, v)]
        /\ obe' = [x \in Elems |-> EObsOf(e, x)]
        /\ ex' = exa
+       /\ dev' = (dev \/ Deviates(e))
        /\ (IF kinds = {} THEN TRUE
            ELSE Report([h |-> e.h, s |-> e.s, n |-> e.n,
                         sz0 |-> IF e.v \in Vecs THEN SizeOrNeg(vec[e.v]) ELSE -1,
@@ -461,14 +473,14 @@ StepEnd(e) ==
                \cup Bad(lf.objs = {} /\ e.objs = <<>>, "OBJECTS_NEVER_DESTROYED")
   IN /\ (IF kinds = {} THEN TRUE ELSE Report([h |-> e.h, s |-> 0, n |-> "end"], kinds))
      /\ skip' = TRUE
-     /\ UNCHANGED <<vec, el, heap, objs, ob, obe, ex>>
+     /\ UNCHANGED <<vec, el, heap, objs, ob, obe, ex, dev>>
 
 TraceInit ==
   /\ l = 1 /\ skip = TRUE
   /\ vec = [v \in Vecs |-> Absent] /\ el = [x \in Elems |-> Absent]
   /\ act = [n |-> "Init", v |-> 0, a |-> <<>>, fault |-> 0]
   /\ heap = {} /\ objs = {} /\ ob = [v \in Vecs |-> NoObs] /\ ex = [v \in Vecs |-> FALSE]
-  /\ obe = [x \in Elems |-> NoObs]
+  /\ obe = [x \in Elems |-> NoObs] /\ dev = FALSE
 
 TraceNext ==
   /\ l <= Len(TraceLog)
@@ -478,14 +490,14 @@ TraceNext ==
      CASE e.e = "begin" -> ResetState
        [] e.e = "crash" -> IF skip THEN Hold      \* the history already has its first divergence
                            ELSE IF e.n # "finish" /\ ~PreOf(S0, e.n, e.v, e.a)
-                           THEN Report(e, {"DRIVER_PRECONDITION"}) /\ skip' = TRUE
-                                /\ UNCHANGED <<vec, el, heap, objs, ob, obe, ex>>
+                           THEN (IF dev THEN TRUE ELSE Report(e, {"DRIVER_PRECONDITION"})) /\ skip' = TRUE
+                                /\ UNCHANGED <<vec, el, heap, objs, ob, obe, ex, dev>>
                            ELSE /\ Report([h |-> e.h, s |-> e.s, n |-> e.n,
                                            sz0 |-> IF e.v \in Vecs THEN SizeOrNeg(vec[e.v]) ELSE -1, sz1 |-> -1],
                                           {"CRASH:" \o e.kind})
                                 /\ skip' = TRUE
-                                /\ UNCHANGED <<vec, el, heap, objs, ob, obe, ex>>
-       [] e.e = "skip"  -> skip' = TRUE /\ UNCHANGED <<vec, el, heap, objs, ob, obe, ex>>
+                                /\ UNCHANGED <<vec, el, heap, objs, ob, obe, ex, dev>>
+       [] e.e = "skip"  -> skip' = TRUE /\ UNCHANGED <<vec, el, heap, objs, ob, obe, ex, dev>>
        [] e.e = "op"    -> IF skip THEN Hold ELSE StepOp(e)
        [] e.e = "end"   -> IF skip THEN Hold ELSE StepEnd(e)
        [] OTHER         -> Hold
